@@ -19,6 +19,10 @@ import (
 type World struct {
 	Locks map[types.Address]Lock
 	Files map[types.Hash256][]byte
+	// Sectors > 0: contract data is mostly whole 4 MiB sectors (at most this many per file);
+	// LibProver: honest proofs over such files are built by the library's own provers
+	Sectors   int
+	LibProver bool
 }
 
 // NewWorld registers the pool's standard locks.
@@ -417,6 +421,14 @@ func (b *Builder) V1Siafunds() bool {
 // drawFile draws contract data of an interesting size and registers it by root.
 func (b *Builder) drawFile(name string) ([]byte, types.Hash256) {
 	t := b.T
+	if b.W.Sectors > 0 && rapid.IntRange(0, 3).Draw(t, name+"sectorFile") != 0 {
+		// whole sectors, as hosts store them; few distinct files so that the expensive trees are shared
+		k := rapid.IntRange(1, b.W.Sectors).Draw(t, name+"sectors")
+		seed := uint64(rapid.IntRange(0, 2).Draw(t, name+"sectorSeed"))
+		data, root := SectorFileCached(seed, k)
+		b.W.Files[root] = data
+		return data, root
+	}
 	var size int
 	switch rapid.IntRange(0, 7).Draw(t, name+"sizeClass") {
 	case 0:
@@ -570,10 +582,14 @@ func (b *Builder) V1ProofFor(e types.FileContractElement, windowID types.BlockID
 	sp := types.StorageProof{ParentID: e.ID}
 	if len(data) > 0 {
 		idx := ref.ChallengeIndex(e.FileContract.Filesize, windowID, e.ID)
-		leaf, path := ref.FileProof(data, int(idx))
-		sp.Leaf = leaf
-		for _, h := range path {
-			sp.Proof = append(sp.Proof, types.Hash256(h))
+		if b.W.LibProver && IsSectorFile(data) {
+			sp.Leaf, sp.Proof = LibFileProof(data, idx)
+		} else {
+			leaf, path := RefProof(data, e.FileContract.FileMerkleRoot, int(idx))
+			sp.Leaf = leaf
+			for _, h := range path {
+				sp.Proof = append(sp.Proof, types.Hash256(h))
+			}
 		}
 	}
 	return types.Transaction{StorageProofs: []types.StorageProof{sp}}, true
@@ -639,6 +655,9 @@ func (b *Builder) V1Prove() bool {
 	b.label("v1-proof-era-" + b.V1Era())
 	if n := ref.NumLeaves64(e.FileContract.Filesize); n&(n-1) != 0 {
 		b.label("v1-proof-non-pow2-leaves")
+	}
+	if b.W.LibProver && IsSectorFile(b.W.Files[e.FileContract.FileMerkleRoot]) {
+		b.label(fmt.Sprintf("v1-proof-by-library-prover-over-%d-sectors", e.FileContract.Filesize/SectorSize))
 	}
 	b.finishV1(txn)
 	return true
@@ -922,10 +941,14 @@ func (b *Builder) V2ProofFor(e types.V2FileContractElement) (types.V2FileContrac
 	sp := &types.V2StorageProof{ProofIndex: ci}
 	if len(data) > 0 {
 		idx := ref.ChallengeIndex(fc.Filesize, ci.ChainIndex.ID, e.ID)
-		leaf, path := ref.FileProof(data, int(idx))
-		sp.Leaf = leaf
-		for _, h := range path {
-			sp.Proof = append(sp.Proof, types.Hash256(h))
+		if b.W.LibProver && IsSectorFile(data) {
+			sp.Leaf, sp.Proof = LibFileProof(data, idx)
+		} else {
+			leaf, path := RefProof(data, fc.FileMerkleRoot, int(idx))
+			sp.Leaf = leaf
+			for _, h := range path {
+				sp.Proof = append(sp.Proof, types.Hash256(h))
+			}
 		}
 	}
 	return types.V2FileContractResolution{Parent: e.Copy(), Resolution: sp}, true
@@ -970,6 +993,9 @@ func (b *Builder) V2Resolve() bool {
 		b.expectSC(e.ID.V2HostOutputID(), fc.HostOutput, b.maturity(), "v2 proof host output")
 		if n := ref.NumLeaves64(fc.Filesize); n&(n-1) != 0 {
 			b.label("v2-proof-non-pow2-leaves")
+		}
+		if b.W.LibProver && IsSectorFile(b.W.Files[fc.FileMerkleRoot]) {
+			b.label(fmt.Sprintf("v2-proof-by-library-prover-over-%d-sectors", fc.Filesize/SectorSize))
 		}
 	case "expire":
 		txn.FileContractResolutions = []types.V2FileContractResolution{{Parent: e.Copy(), Resolution: &types.V2FileContractExpiration{}}}
